@@ -12,6 +12,10 @@
        kid u i       element i of the array field of u (removal shifts the later elements down,
                      insertion shifts them up)
        dict u k      entry k of the dictionary field of u
+       ocell u i     cell i of the fixed-length array-of-OPTIONAL-resources field of u (`@[R?]`; an
+                     empty cell holds nil, so nil elements sit before/after occupied cells)
+       odict u k     entry k of the dictionary-of-optional-resources field of u (`@{Int: R?}`; the
+                     dictionary also has nil-valued entries under keys that are never used)
    There is one action per language-level move form named by the property:
        Create                      `create` into an empty optional variable (force-move `<-!`)
        Move(u, dst)                take u out of its place and put it into the empty place dst; by
@@ -38,19 +42,24 @@ CONSTANTS Ids, Slots, Accts, Paths, Keys, MaxKids, MaxDepth, MaxOps, MaxTx,
           NoEvent,     \* ids of resources whose type does not declare ResourceDestroyed
           Big,         \* ids of resources with a large payload (stand-alone slabs)
           SlotRep,     \* [Slots -> {"var","dict","arr"}]
+          OCells,      \* cells of the array of optional resources that the model uses (subset of {0, 1})
+          OKeys,       \* keys of the dictionary of optional resources that the model uses (subset of {1, 2})
           Forms        \* enabled optional forms: subset of {"direct","shift","bad","fn","reput"}; "noabort" disables Abort
 
-Nested  == {"child", "kid", "dict"}
+Nested  == {"child", "kid", "dict", "ocell", "odict"}
 Nowhere == [k |-> "none", a |-> 0, b |-> 0]
 SlotPl(i)     == [k |-> "slot",  a |-> i, b |-> 0]
 StorePl(a, p) == [k |-> "store", a |-> a, b |-> p]
 ChildPl(u)    == [k |-> "child", a |-> u, b |-> 0]
 KidPl(u, i)   == [k |-> "kid",   a |-> u, b |-> i]
 DictPl(u, x)  == [k |-> "dict",  a |-> u, b |-> x]
+OCellPl(u, i) == [k |-> "ocell", a |-> u, b |-> i]
+ODictPl(u, x) == [k |-> "odict", a |-> u, b |-> x]
 SlotPlaces   == {SlotPl(i) : i \in Slots}
 StorePlaces  == {StorePl(a, p) : a \in Accts, p \in Paths}
 NestedPlaces == {ChildPl(u) : u \in Ids} \cup {KidPl(u, i) : u \in Ids, i \in 0..(MaxKids - 1)}
                 \cup {DictPl(u, x) : u \in Ids, x \in Keys}
+                \cup {OCellPl(u, i) : u \in Ids, i \in OCells} \cup {ODictPl(u, x) : u \in Ids, x \in OKeys}
 Places == SlotPlaces \cup StorePlaces \cup NestedPlaces
 
 VARIABLES loc,        \* [Ids -> Places \cup {Nowhere}]   where every resource is
@@ -107,12 +116,17 @@ PathStr(l, pl) ==
     [] pl.k = "child" -> PathStr(l, l[pl.a]) \o ".child"
     [] pl.k = "kid"   -> PathStr(l, l[pl.a]) \o ".kids[" \o ToString(pl.b) \o "]"
     [] pl.k = "dict"  -> PathStr(l, l[pl.a]) \o ".dict[" \o ToString(pl.b) \o "]"
+    [] pl.k = "ocell" -> PathStr(l, l[pl.a]) \o ".opts[" \o ToString(pl.b) \o "]"
+    [] pl.k = "odict" -> PathStr(l, l[pl.a]) \o ".odict[" \o ToString(pl.b) \o "]"
 The(S) == CHOOSE x \in S : TRUE
 MaxKey == IF Keys = {} THEN 0 ELSE MaxOf(Keys)
-RECURSIVE Desc(_, _), DescKids(_, _, _), DescDict(_, _, _)
+RECURSIVE Desc(_, _), DescKids(_, _, _), DescDict(_, _, _), DescAt(_, _)
 Desc(l, u) == ToString(u) \o "("
               \o (IF At(l, ChildPl(u)) = {} THEN "" ELSE Desc(l, The(At(l, ChildPl(u)))))
-              \o ")[" \o DescKids(l, u, 0) \o "]{" \o DescDict(l, u, 1) \o "}"
+              \o ")[" \o DescKids(l, u, 0) \o "]{" \o DescDict(l, u, 1) \o "}<"
+              \o DescAt(l, OCellPl(u, 0)) \o "," \o DescAt(l, OCellPl(u, 1)) \o ",|"
+              \o DescAt(l, ODictPl(u, 1)) \o "," \o DescAt(l, ODictPl(u, 2)) \o ",>"
+DescAt(l, pl) == IF At(l, pl) = {} THEN "-" ELSE Desc(l, The(At(l, pl)))
 DescKids(l, p, i) == IF At(l, KidPl(p, i)) = {} THEN ""
                      ELSE Desc(l, The(At(l, KidPl(p, i)))) \o "," \o DescKids(l, p, i + 1)
 DescDict(l, p, x) == IF x > MaxKey THEN ""
@@ -198,7 +212,7 @@ Swap(i, j) ==
   /\ UNCHANGED <<created, destroyed, evs>>
 
 \* double transfer `let old <- m <- w`: w = 0 stands for a freshly created resource
-ShiftablePlace(pl) == pl.k \in {"child", "kid", "dict"} \/ (pl.k = "slot" /\ Swappable(pl.a))
+ShiftablePlace(pl) == pl.k \in {"child", "kid", "dict", "ocell", "odict"} \/ (pl.k = "slot" /\ Swappable(pl.a))
 Shift(w, m, dst) ==
   /\ InTx /\ "shift" \in Forms
   /\ m \in Live(loc) /\ m # w
@@ -239,7 +253,7 @@ Peek == /\ InTx /\ "peek" \in Forms
 BadMove(u, dst) ==
   /\ InTx /\ "bad" \in Forms
   /\ u \in Live(loc) /\ loc[u].k = "slot"
-  /\ dst.k \in {"slot", "store", "child", "dict"}
+  /\ dst.k \in {"slot", "store", "child", "dict", "ocell"}
   /\ dst.k = "slot" => SlotRep[dst.a] \in {"var", "dict"}
   /\ LET l1 == Take(loc, u) IN
      /\ At(l1, dst) # {}
